@@ -110,8 +110,11 @@ def gen_case(index: int, vseed: int, info: dict) -> dict:
     seed = core.run_seed(vseed, PROP, index)
     rng = random.Random(seed)
     ccs = info["countries"] + [""]
-    cc = ccs[index % len(ccs)]
-    use_registry = bool((index // len(ccs)) % 2)
+    # four consecutive cases share a country (so that one draw's pins could leak into the next), while every
+    # block of 4*127 cases still visits every country; the fresh-interpreter leg evaluates a strided subset, i.e.
+    # the same cases under a different call history
+    cc = ccs[(index // 4) % len(ccs)]
+    use_registry = bool((index // 2) % 2)
     api = "iban" if rng.random() < 0.7 else "bban"
     pinned: dict = {}
     if cc:
@@ -333,6 +336,7 @@ def worker_task(task: dict) -> dict:
             if len(st["violations"]) < 4:
                 st["violations"].append({"property": PROP, "engine": core.ENGINE_VERSION, "verif_seed": vseed,
                                          "run_index": case["index"], "pythonhashseed": core.HASHSEED,
+                                         "prelude_indices": [c["index"] for c in cases if c["index"] < case["index"]],
                                          "draw": case, "history_seed": viol.get("history_seed"), "violation": viol})
         elif len(st["samples"]) < 1 and case["pinned"] and kind == "ok":
             st["samples"].append({"case": case, "result": a["result"][:3], "prng_decisions": calls})
@@ -388,18 +392,19 @@ def evaluate_single(rec: dict) -> dict | None:
     """Re-derive the violation of one record in a pristine fork (and fresh interpreter if needed)."""
     case = rec["draw"]
     leg = rec["violation"]["signature"].get("leg")
+    before = [gen_case(i, rec["verif_seed"], INFO) for i in rec.get("prelude_indices", [])]
     if leg == "fresh-interpreter":
         hs = rec["violation"]["hashseed"]
-        base = isolate.fork_call(run_cases_child, ([case], INFO, None), timeout=300)[0]
+        base = isolate.fork_call(run_cases_child, ([*before, case], INFO, None), timeout=300)[-1]
         other = fresh_results([case], hs)[str(case["index"])]
         if base["violation"] is None and other != base["result"][:3]:
             return dict(rec["violation"], detail=f"{case} gave {base['result'][:3]} here but {other} in a fresh interpreter under PYTHONHASHSEED={hs}")
         return base["violation"]
-    a = isolate.fork_call(run_cases_child, ([case], INFO, None), timeout=300)[0]
+    a = isolate.fork_call(run_cases_child, ([*before, case], INFO, None), timeout=300)[-1]
     if a["violation"] is not None:
         return a["violation"]
     if leg == "after-history" and rec.get("history_seed") is not None:
-        b = isolate.fork_call(run_cases_child, ([case], INFO, rec["history_seed"]), timeout=300)[0]
+        b = isolate.fork_call(run_cases_child, ([*before, case], INFO, rec["history_seed"]), timeout=300)[-1]
         if b["violation"] is not None:
             return b["violation"]
         if b["result"] != a["result"]:
@@ -432,6 +437,20 @@ def minimise(rec: dict) -> dict:
             return True
         return False
 
+    if best.get("prelude_indices"):  # earlier draws of the same process: none, else a shorter suffix
+        c = json.loads(json.dumps(best))
+        c["prelude_indices"] = []
+        if not attempt(c):
+            size = len(best["prelude_indices"]) // 2
+            while size >= 1 and best.get("prelude_indices"):
+                c = json.loads(json.dumps(best))
+                c["prelude_indices"] = best["prelude_indices"][size:]
+                if not attempt(c):
+                    size //= 2
+        return_early = bool(best.get("prelude_indices"))
+        if return_early:
+            best["minimised_from"] = orig
+            return best
     for name in sorted(best["draw"]["pinned"]):
         c = json.loads(json.dumps(best))
         del c["draw"]["pinned"][name]
@@ -509,7 +528,7 @@ def main() -> int:
         [str(core.run_seed(vseed, PROP + "-hashseed", k) % 4294967295) for k in range(1, 5)]
     nfresh = 2540 if args.tier == "quick" else 12_700
     deadline = runner.wall_cap(args.tier)
-    tasks = [{"indices": ch, "vseed": vseed, "deadline": deadline} for ch in runner.chunks(list(range(ncases)), 127)]
+    tasks = [{"indices": ch, "vseed": vseed, "deadline": deadline} for ch in runner.chunks(list(range(ncases)), 128)]
     fresh_cases = [gen_case(i, vseed, INFO) for i in range(0, ncases, max(1, ncases // nfresh))][:nfresh]
     wp = isolate.Pool(core.workers())
     agg = {"draws": 0, "violation_count": 0, "prng_calls": 0}
@@ -548,6 +567,7 @@ def main() -> int:
                     agg["violation_count"] += 1
                     violations.append({"property": PROP, "engine": core.ENGINE_VERSION, "verif_seed": vseed,
                                        "run_index": case["index"], "pythonhashseed": core.HASHSEED, "draw": case,
+                                       "prelude_indices": list(range((case["index"] // 128) * 128, case["index"])),
                                        "violation": {"kind": "not-reproducible", "hashseed": hs, "case": case,
                                                      "signature": {"kind": "not-reproducible", "leg": "fresh-interpreter", "api": case["api"]},
                                                      "detail": f"{case} gave {want} in the check process but {got} in a fresh interpreter under PYTHONHASHSEED={hs}"}})
